@@ -40,6 +40,7 @@ type Prog struct {
 	nPackages int
 	// Renames: unexported names spelt back to the frozen inventory before analysis (rename.go)
 	Renames []string
+	Inlined []string
 
 	// lazily built engines
 	callers   map[*ssa.Function][]callSite // resolved in-scope call sites per callee
@@ -107,24 +108,38 @@ func loadProg(dir string, tags string, goarch string) *Prog {
 		broken("%d load/type errors in %s", nerr, modPath)
 	}
 	// rename normalisation (rename.go): spell renamed unexported names back to the frozen ones in an overlay
-	var renames []string
+	var renames, inlined []string
+	var curOverlay map[string][]byte
+	reload := func(ov map[string][]byte) []*packages.Package {
+		cfg2 := *cfg
+		cfg2.Overlay = ov
+		pkgs2, err2 := packages.Load(&cfg2, "./...")
+		if err2 != nil || len(pkgs2) == 0 {
+			return nil
+		}
+		bad := false
+		packages.Visit(pkgs2, nil, func(p *packages.Package) {
+			if strings.HasPrefix(p.PkgPath, modPath) && len(p.Errors) > 0 {
+				bad = true
+				if os.Getenv("GOATCHECK_DEBUG") != "" {
+					for _, e := range p.Errors {
+						fmt.Fprintf(os.Stderr, "overlay error: %v\n", e)
+					}
+				}
+			}
+		})
+		if bad {
+			return nil
+		}
+		return pkgs2
+	}
 	if renameNormalisation && os.Getenv("GOATCHECK_NO_RENAME") == "" && len(pkgs) > 0 {
-		if pairs := matchRenames(frozenInventory(), inventoryOf(pkgs)); len(pairs) > 0 {
+		frozen := frozenInventory()
+		if pairs := matchRenames(frozen, inventoryOf(pkgs)); len(pairs) > 0 {
 			ov, err := renameOverlay(pkgs, pkgs[0].Fset, pairs)
 			if err == nil {
-				cfg2 := *cfg
-				cfg2.Overlay = ov
-				pkgs2, err2 := packages.Load(&cfg2, "./...")
-				bad := err2 != nil || len(pkgs2) == 0
-				if !bad {
-					packages.Visit(pkgs2, nil, func(p *packages.Package) {
-						if strings.HasPrefix(p.PkgPath, modPath) && len(p.Errors) > 0 {
-							bad = true
-						}
-					})
-				}
-				if !bad {
-					pkgs = pkgs2
+				if pkgs2 := reload(ov); pkgs2 != nil {
+					pkgs, curOverlay = pkgs2, ov
 					for _, pr := range pairs {
 						renames = append(renames, pr.String())
 					}
@@ -134,11 +149,47 @@ func loadProg(dir string, tags string, goarch string) *Prog {
 				}
 			}
 		}
+		// helper normalisation (inline.go): splice new helper functions back into their callers
+		if os.Getenv("GOATCHECK_NO_INLINE") == "" {
+			for pass := 0; pass < inlineMaxPasses; pass++ {
+				res, err := inlinePass(pkgs, frozen, curOverlay)
+				if err != nil {
+					fmt.Fprintf(os.Stderr, "helper normalisation abandoned: %v\n", err)
+					break
+				}
+				if !res.changed {
+					for _, n := range res.notes {
+						if strings.Contains(n, "left in place") {
+							inlined = append(inlined, n)
+						}
+					}
+					break
+				}
+				pkgs2 := reload(res.overlay)
+				if pkgs2 == nil {
+					fmt.Fprintf(os.Stderr, "helper normalisation: pass %d does not type-check; keeping the result of the previous passes\n", pass+1)
+					inlined = append(inlined, fmt.Sprintf("pass %d abandoned (spliced text did not type-check)", pass+1))
+					if os.Getenv("GOATCHECK_DEBUG") != "" {
+						for f, b := range res.overlay {
+							os.WriteFile("/tmp/goatcheck_overlay_"+strings.ReplaceAll(strings.TrimPrefix(f, dir), "/", "_"), b, 0o644)
+						}
+					}
+					break
+				}
+				pkgs, curOverlay = pkgs2, res.overlay
+				for _, n := range res.notes {
+					if !strings.Contains(n, "left in place") {
+						inlined = append(inlined, n)
+					}
+				}
+			}
+		}
 	}
 	prog, spkgs := ssautil.AllPackages(pkgs, ssa.InstantiateGenerics)
 	prog.Build()
 	p := &Prog{Dir: dir, Fset: prog.Fset, Pkgs: pkgs, SSA: prog, byPkg: map[string]*ssa.Package{}, inScope: map[*ssa.Function]bool{}}
 	p.Renames = renames
+	p.Inlined = inlined
 	for _, sp := range spkgs {
 		if sp != nil {
 			p.byPkg[sp.Pkg.Path()] = sp
